@@ -102,7 +102,7 @@ type refRest struct {
 	Filters   []gw.HTTPRouteFilter `json:"filters,omitempty"`
 }
 
-func mustJSON(v interface{}) string {
+func gatewayMustJSON(v interface{}) string {
 	b, err := json.Marshal(v)
 	if err != nil {
 		panic(err)
@@ -114,7 +114,7 @@ func gwFilters(fs []gw.HTTPRouteFilter) string {
 	if len(fs) == 0 {
 		return ""
 	}
-	return mustJSON(fs)
+	return gatewayMustJSON(fs)
 }
 
 func gwRef(r gw.HTTPBackendRef) J {
@@ -126,7 +126,7 @@ func gwRef(r gw.HTTPBackendRef) J {
 		w = int(*r.Weight)
 	}
 	return J{"kind": k, "name": string(r.Name), "w": w,
-		"rest": mustJSON(refRest{Group: r.Group, Namespace: r.Namespace, Port: r.Port, Filters: r.Filters})}
+		"rest": gatewayMustJSON(refRest{Group: r.Group, Namespace: r.Namespace, Port: r.Port, Filters: r.Filters})}
 }
 
 func gwRule(r gw.HTTPRouteRule) J {
